@@ -9,7 +9,7 @@ from mc import core, ghost
 
 PROPERTY = 'C04'
 LEVEL = 'model_checking'
-RULE = ('every program = (0-3 handlers of event e with distinct priorities drawn from 16 shapes: return v / return 0 / return None / raise / return a nested Value / '
+RULE = ('every program = (0-3 handlers of event e with distinct priorities drawn from 18 shapes: return v / return 0 / return None / raise / return a nested Value / '
         'generator yielding 0-2 values (None or not) / generator raising at step 0 or 1) x (success, failure, notify, '
         'success_channels) x (optional nested event fired by a handler | the event fired twice: after the first settled / both in flight); each program executed once, driven by tick() to '
         'quiescence; non-trivial = at least two different handler shapes or a raising/generator handler; distinct = distinct program')
@@ -40,10 +40,12 @@ def shapes(i):
         ('RVx', [('retfire', 'gx')]),        # ... whose handler raises (that is not a raise of THIS event's handler)
         ('R0', [('ret', 0)]),                # falsy results are results (only None means "no result")
         ('G0v', ('gen', [('y', 0), ('y', b + 5)])),
+        ('XB', [('raiseb',)]),               # raises a BaseException that is not an Exception (isolated like any other)
+        ('GXB1', ('gen', [('y', None), ('raiseb',)])),
     ]
 
 
-NSH = 16
+NSH = 18
 FLAGS = [dict(success=s, failure=f, notify=n, success_channels=sc)
          for s in (False, True) for f in (False, True) for n in (False, True) for sc in (None, ('other',))]
 NESTED_SHAPES = [0, 2, 5, 10]   # R, X, Gv, GX1 for the nested event's handlers
@@ -178,7 +180,7 @@ def judge_event(w, eid, hids, flags, shapes_of, bad, tag):
             bad.append((tag + 'exception-args', 'the exception events carry the errors of %r, the handlers that raised are %r' % (named, raisers)))
         for x in excs:
             typ, eargs, hname, tb_is_list = x[4]
-            if typ != 'Boom' or not tb_is_list:
+            if typ not in ('Boom', 'BoomBase') or not tb_is_list:
                 bad.append((tag + 'exception-args', 'exception event with type %r / traceback-is-a-list %r' % (typ, tb_is_list)))
             hid = eval(eargs)[0] if eargs and eargs.startswith('(') else None
             plain = hid is not None and not any(y[0] == 'step' and y[1] == hid and y[2] == eid for y in log) \
